@@ -131,7 +131,7 @@ def part_generated(ctx, examples, profile="full", max_packets=8):
 PARTS = {"generated": part_generated}
 REPLAY = {"generated": check_case}
 KNOWN = {}
-FLOORS = {"packet clean": ("", 0.05), "nontrivial": ("", 0.2)}
+FLOORS = {"packet clean": ("", 0.05), "nontrivial": ("", 0.1)}
 
 
 def plan(tier, seed):
